@@ -170,7 +170,7 @@ Proof.
   - set (s5 := deliver_sys _ t self SLaunch).
     assert (H5 : pending s5 = pending s) by (unfold s5; rewrite deliver_sys_pending; rewrite pending_upd_actor by keep; exact H2).
     unfold stop_if_parent_gone. destruct (get s5 u) as [pa|]; [|intros H; inversion H; subst; apply bal_quiet; auto].
-    destruct (st_ge_terminating (a_st pa)); [|intros H; inversion H; subst; apply bal_quiet; auto].
+    destruct (not_alive (a_st pa)); [|intros H; inversion H; subst; apply bal_quiet; auto].
     destruct (terminate s5 self t (a_graceful pa)) as [s6 o6] eqn:E6. intros H; inversion H; subst.
     apply terminate_bal in E6. unfold bal. lia.
 Qed.
